@@ -110,8 +110,10 @@ KeyDecInto(holder, kty, j) ==
 KeyDec(kty, j) == KeyDecInto(ZeroHolder(kty[1]), kty, j)
 
 (* fx: which of the proposed repairs are applied  [nilmulti, ptrcont : BOOLEAN]  (fixes/D9-serialization-pointers.diff) *)
-AsIs == [nilmulti |-> FALSE, ptrcont |-> FALSE]
-Fixed == [nilmulti |-> TRUE, ptrcont |-> TRUE]
+(* nullptr: fixes/D29-serialization-nil-struct-pointer.diff (a null based value with PointerNum > 0 is the typed nil pointer,   *)
+(* without handing the pointee type to sonic)                                                                              *)
+AsIs == [nilmulti |-> FALSE, ptrcont |-> FALSE, nullptr |-> FALSE]
+Fixed == [nilmulti |-> TRUE, ptrcont |-> TRUE, nullptr |-> TRUE]
 
 RECURSIVE EncFrom(_, _, _)
 Enc(v, fx) == IF v.k = "nilif" THEN NilIS ELSE EncFrom(v, 0, fx)
@@ -187,7 +189,7 @@ Dec(is, fx) ==
   IF is.isnil THEN NILIF                                                \* :267-269
   ELSE IF is.Type # <<>> THEN                                           \* based type :271-283
      IF ~Registered(is.Type) THEN FailV("err", "unknown type key")
-     ELSE IF SonicRejects(is.Type) THEN FailV("err", "sonic: unsupported map key type")
+     ELSE IF SonicRejects(is.Type) /\ ~(fx.nullptr /\ is.JSONValue = "null" /\ is.PointerNum > 0) THEN FailV("err", "sonic: unsupported map key type")
      ELSE IF is.JSONValue = "null"
           THEN (IF is.PointerNum = 0 THEN ZeroOf(is.Type) ELSE NilPtrOf(Ptrs(is.PointerNum) \o is.Type))
           ELSE MkPtr(is.PointerNum, V(is.Type, "leaf", FALSE, is.JSONValue, <<>>, <<>>))
@@ -238,8 +240,11 @@ Eq(a, b) ==
 
 (* o = [enc, dec, out]: round trip, or a loud failure (an error from Marshal or from Unmarshal), never a panic and      *)
 (* never a different value.                                                                                            *)
+(* "Round-trips or fails loudly": the refusal must come from Marshal.  What Marshal accepted has been written to the store; an  *)
+(* Unmarshal error then means a checkpoint that cannot be read back.  (The nil interface is not a value of the universe:       *)
+(* Marshal(nil) writes "null", which Unmarshal refuses.)                                                                      *)
 Law(v, o) == \/ o.enc = "err"
-             \/ o.enc = "ok" /\ o.dec = "err"
+             \/ o.enc = "ok" /\ o.dec = "err" /\ v.k = "nilif"
              \/ o.enc = "ok" /\ o.dec = "ok" /\ Eq(v, o.out)
 
 --------------------------------------------------------------------------------
@@ -261,7 +266,9 @@ Feature(v) == IF FeatNilMultiPtr(v) THEN "nil-multi-ptr"
               ELSE "none"
 Deviations(fx) == {"array", "ptr-to-nil-ptr", "map-any-key"}
                   \cup (IF fx.nilmulti THEN {} ELSE {"nil-multi-ptr"}) \cup (IF fx.ptrcont THEN {} ELSE {"ptr-to-container"})
+FeatSonicNilStruct(v) == \E s \in Sub(v) : s.k = "ptr" /\ s.nil /\ SonicRejects(Strip(s.t))
 Explained(v, fx) == \/ FeatNilMultiPtr(v) /\ ~fx.nilmulti
+                    \/ FeatSonicNilStruct(v) /\ ~fx.nullptr
                     \/ FeatPtrContainer(v) /\ ~fx.ptrcont
                     \/ FeatArray(v) \/ FeatPtrNilPtr(v) \/ FeatAnyKey(v)
 
@@ -303,6 +310,8 @@ Reason(v, o) == IF Law(v, o) THEN ""
                 ELSE IF o.enc = "panic" THEN "marshal-panic:" \o o.pclass
                 ELSE IF o.dec = "panic" THEN "unmarshal-panic:" \o o.pclass
                 ELSE IF o.enc = "ok" /\ o.dec = "ok" THEN "loss:" \o DiffSig(v, o.out)
+                ELSE IF o.enc = "ok" /\ o.dec = "err"
+                     THEN "unreadable:" \o (IF FeatSonicNilStruct(v) THEN "nil-ptr-to-struct-with-nonstring-key-map" ELSE "written-value-refused-by-unmarshal")
                 ELSE "malformed-outcome"
 
 ================================================================================
